@@ -58,10 +58,13 @@ type BarSpec struct {
 	QueueAfter int       `json:"queue_after"` // bar index, -1 none
 	Filler     int       `json:"filler,omitempty"`
 	ExtRows    int       `json:"ext_rows,omitempty"`
+	ExtNoNL    bool      `json:"ext_no_nl,omitempty"` // the extender's output ends with an unterminated piece of text (which is not a row)
 	ExtRev     bool      `json:"ext_rev,omitempty"`
 	Pre        []DecSpec `json:"pre,omitempty"`
 	App        []DecSpec `json:"app,omitempty"`
 	NoSpy      bool      `json:"no_spy,omitempty"`
+	FillOnComplete bool  `json:"fill_on_complete,omitempty"` // BarFillerOnComplete(FillMsg(...))
+	FillOnAbort    bool  `json:"fill_on_abort,omitempty"`    // BarFillerOnAbort(FillMsg(...))
 }
 
 // Decorator kinds.
@@ -103,6 +106,7 @@ type DecSpec struct {
 	Fmt      string `json:"fmt,omitempty"`
 	Age      int    `json:"age,omitempty"`
 	Mark     bool   `json:"mark,omitempty"` // wrap the output in {tag=...} so that it can be found in the row
+	PreInit  bool   `json:"pre_init,omitempty"` // the WC passed to the constructor is a copy of one shared, already initialised style value
 }
 
 // Texts used by probe decorators (index = DecSpec.Text); width varies.
